@@ -10,8 +10,9 @@ B  the Lean model at Float against numba, bit-for-bit: `mutational_area`, `mutat
    breakpoint recovery of `rescale()`.
 C  the statement on the real code: direct overlap sums (exact rationals), monotone / continuous / fixes 0 / fixed
    untouched on the point map, order of posterior means preserved and mapped mean kept by `rescale()`, shape <= max_shape.
-   `AssertionError: Use fewer rescaling intervals` is finding F5 (property C35): counted and excluded; its
-   characterisation `timescale_strict_iff` is evaluated on the recorded calls.
+   `AssertionError: Use fewer rescaling intervals` (finding F5, repaired by /repo fa21a50) must not occur any more:
+   `timescale_breaks_strict` is the obligation, `timescale_strict_iff` + `merge_noop_when_informative` say when the new
+   merging step changes anything; both are evaluated on the real outputs.
 """
 
 from fractions import Fraction
@@ -22,7 +23,7 @@ from .. import common, gen, rescale_corr as rc
 from ..common import Result, Violation, f2h
 
 META = dict(
-    level='Lean theorems over the models of mutational_area / mutational_timescale / piecewise_scale_* (all edge lists with in-range endpoints, all time vectors incl. ties and non-positive edge lengths, all likelihood tables, all break vectors satisfying the code\'s own asserted precondition, exact arithmetic): difference array + cumsum = direct per-interval overlap sum of mutation rate and span; the index/slope formula is the piecewise-linear interpolant through the breakpoints, monotone, Lipschitz-continuous, maps break i to rescaled break i (fixes 0), constant after the last break; fixed entries untouched; order of free point estimates preserved; compositions monotone; rescaled breaks strictly increase iff every interval has positive mutation count (characterises finding F5 of C35); the posterior step keeps the mapped mean for whatever shape the inter-quantile fit returns. Models tied to numba bit-for-bit incl. on all calls recorded inside real rescale() runs. Outside the theorems: that dense ranks correspond to time intervals is tied by correspondence and the exact-rational oracle only; shape <= max_shape is a property of approximate_gamma_iqr (C19 cluster), checked by the oracle only; rounding.',
+    level='Lean theorems over the models of mutational_area / mutational_timescale / piecewise_scale_* (all edge lists with in-range endpoints, all time vectors incl. ties and non-positive edge lengths, all likelihood tables, all break vectors satisfying the code\'s own asserted precondition, exact arithmetic): difference array + cumsum = direct per-interval overlap sum of mutation rate and span; the index/slope formula is the piecewise-linear interpolant through the breakpoints, monotone, Lipschitz-continuous, maps break i to rescaled break i (fixes 0), constant after the last break; fixed entries untouched; order of free point estimates preserved; compositions monotone; the breaks returned by mutational_timescale (after the merging step of fix fa21a50) always satisfy the asserted precondition and start at (0,0); raw rescaled breaks strictly increase iff every interval has positive mutation count, and then nothing is merged; the posterior step keeps the mapped mean for whatever shape the inter-quantile fit returns. Models tied to numba bit-for-bit incl. on all calls recorded inside real rescale() runs. Outside the theorems: that dense ranks correspond to time intervals is tied by correspondence and the exact-rational oracle only; shape <= max_shape is a property of approximate_gamma_iqr (C19 cluster), checked by the oracle only; rounding.',
     note='Lean kernel + {propext, Classical.choice, Quot.sound}; sampled bit-exact correspondence at Float; numpy argsort/searchsorted/cumsum/unique, numba np.sum order, gammainc_inv and approximate_gamma_iqr by contract',
     technique='prefix-sum lemma for point updates; refinement of index+slope code to a recursive interpolant; induction on the break list; bit-exact model/implementation correspondence incl. recorded calls',
     ref='§3 C25',
@@ -31,7 +32,7 @@ LEAN_PROPS = ["TsdateVerif.Props.C25"]
 LEAN_BUILD = ["TsdateVerif.Model.Proto", "TsdateVerif.Model.Rescale"]
 ASSUMPTIONS = [
     "np.argsort-based dense ranking = number of distinct node times strictly below; np.searchsorted(side='right') on a strictly increasing array = number of entries <= x; np.cumsum / numba np.sum are sequential",
-    "F5 (AssertionError 'Use fewer rescaling intervals') is the asserted precondition of the theorems failing; it is reported under C35, here only counted and characterised",
+    "the hypothesis of timescale_breaks_strict (first raw original break below the last one) holds whenever two node times differ; evaluated per input",
     "gammainc_inv and approximate_gamma_iqr are parameters of the posterior model (the real functions are called on the model's intermediate values)",
 ]
 
@@ -57,7 +58,7 @@ def interval_counts(c, maxint, exact_counts):
     with np.errstate(all="ignore"):
         cps = np.unique(_fixed_changepoints(offset * duration, int(maxint)))
     return [(float(sum(exact_counts[i:j], Fraction(0))), float(np.sum(offset[i:j])), float(np.sum(duration[i:j])))
-            for i, j in zip(cps[:-1], cps[1:])]
+            for i, j in zip(cps[:-1], cps[1:])], int(cps.size)
 
 
 # ----------------------------------------------------------------------------- stages
@@ -150,21 +151,26 @@ def stage_area(ctx, res, stats, batch):
             res.corr_failures.append(Violation(
                 "timescale-model-differs", f"mutational_timescale differs from the Lean model (origin {rc.max_ulps(mt['origin'], T[0])} ulp, "
                 f"adjust {rc.max_ulps(mt['adjust'], T[1])} ulp; max_intervals {c['maxint']})", replay, "B"))
-        # theorem timescale_strict_iff evaluated on the implementation's output
-        iv = interval_counts(c, c["maxint"], want_c)
-        strict = bool(np.all(np.diff(T[1]) > 0))
+        # theorem timescale_breaks_strict on the implementation's output: the returned breaks always satisfy the precondition
+        # asserted by piecewise_scale_* (hypothesis: two node times differ)
+        hyp = bool(np.max(c["times"]) > np.min(c["times"]))
+        stats["hyp_breaks_strict"] += int(hyp)
+        if hyp and not (len(T[0]) == len(T[1]) >= 2 and np.all(np.diff(T[0]) > 0) and np.all(np.diff(T[1]) > 0)):
+            res.violations.append(Violation("timescale-breaks-not-strictly-increasing",
+                                            f"mutational_timescale returned origin {list(T[0])}, adjust {list(T[1])}", replay))
+        # theorems timescale_strict_iff + merge_noop_when_informative: nothing is merged when every interval carries mutations
+        iv, n_cps = interval_counts(c, c["maxint"], want_c)
+        merged = len(T[0]) < n_cps
+        stats["merged"] += int(merged)
         allpos = all(y > 0 for y, n, z in iv)
-        hyp = all(z > 0 and n > 0 for y, n, z in iv)
-        stats["hyp_strict_iff"] += int(hyp)
-        stats["strict_breaks"] += int(strict)
-        # a positive increment far below one ulp of the running sum is absorbed by the float cumsum: not the theorem's business
+        # a positive increment far below one ulp of the running sum is absorbed by the float cumsum; an interval whose exact
+        # count is 0 carries a float residue of the difference array (like 8e-25) of either sign: not the theorem's business
         absorbed = any(0 < z * y / n < 4 * np.spacing(abs(float(T[1][-1]))) for y, n, z in iv if n > 0)
-        # an interval whose exact count is 0 carries a float residue of the difference array (like 8e-25) of either sign:
-        # the float breaks may or may not move there; only intervals clearly away from 0 are decided by the theorem
         residue = any(abs(y) <= 1e-9 * scale_c for y, n, z in iv)
-        if hyp and strict != allpos and not absorbed and not residue:
-            res.violations.append(Violation("timescale-strictness-not-characterised",
-                                            f"rescaled breaks strictly increasing = {strict} but all interval counts positive = {allpos}", replay))
+        if merged and allpos and not absorbed and not residue:
+            res.violations.append(Violation("timescale-merged-an-informative-interval",
+                                            f"{n_cps} changepoints, every interval carries mutations, but only {len(T[0])} breaks returned", replay))
+        stats["hyp_all_intervals_informative"] += int(allpos)
         if T[0][0] != 0.0 or T[1][0] != 0.0:
             res.violations.append(Violation("timescale-breaks-not-from-zero", "origin/adjust do not start at 0", replay))
     if cases:
@@ -395,12 +401,10 @@ def stage_fits(ctx, res, stats, batch):
                     res.corr_failures.append(Violation("recover-model-differs", "breakpoint recovery in rescale() differs from the Lean model", replay, "B"))
                 stats["recover_checked"] += 1
         if r["exc"] is not None:
-            if rc.F5_MSG in r["exc"]:
-                stats["f5_excluded"] += 1          # finding F5, property C35: not this property's mechanism
-                # its characterisation: the last timescale output is not strictly increasing
-                last = r["calls"]["timescale"][-1]["out"] if r["calls"]["timescale"] else None
-                if last is not None and np.all(np.diff(last[1]) > 0) and np.all(np.diff(last[0]) > 0):
-                    stats["f5_from_recovery"] += 1
+            # since fix fa21a50 (repair of F5) mutational_timescale returns strictly increasing breaks, so no assertion of the
+            # rescaling step may fire on a valid fit any more
+            kind = "rescale-asserts-use-fewer-intervals" if rc.F5_MSG in r["exc"] else "rescale-asserts"
+            res.violations.append(Violation(kind, f"ExpectationPropagation.rescale({r['kw']}) raised AssertionError: {r['exc']}", replay))
             continue
         # ---- the statement on rescale(): order of posterior means preserved, mapped mean, fixed untouched
         free = r["constraints"][:, 0] != r["constraints"][:, 1]
@@ -428,8 +432,8 @@ def stage_fits(ctx, res, stats, batch):
 
 
 def new_stats():
-    return dict(area_modes={}, hyp_in_range=0, timescale_raised={}, timescale_ok=0, timescale_zero_mass=0, hyp_strict_iff=0,
-                strict_breaks=0, pwl_pre_true=0, pwl_pre_false=0, order_reversed_within_rounding=0, posterior_rows=0,
+    return dict(area_modes={}, hyp_in_range=0, timescale_raised={}, timescale_ok=0, timescale_zero_mass=0, hyp_breaks_strict=0,
+                merged=0, hyp_all_intervals_informative=0, pwl_pre_true=0, pwl_pre_false=0, order_reversed_within_rounding=0, posterior_rows=0,
                 fit_raised={}, rescale_outcomes={}, recorded_calls=0, recover_checked=0, f5_excluded=0, f5_from_recovery=0)
 
 
